@@ -299,6 +299,7 @@ class Script:
         self.cur = None
         self.open = set()
         self.srv = None
+        self.send_fails = False
 
     def finalize(self, **extra):
         if self.cur is None:
@@ -321,6 +322,13 @@ class Script:
             if ev[0] == "t":
                 self.clock.ms = ev[1]
                 continue
+            if ev[0] == "x":                  # a hiccup of the transport, not an event of the history
+                if ev[1] == "send-fails":
+                    self.send_fails = True
+                    continue
+                if ev[1] == "timeout":
+                    raise socket.timeout("timed out")
+                raise OSError(errno.ECONNRESET, "Connection reset by peer")
             self.cur = dict(kind=ev[0], alive=True, hang=False, accepted=True, reply=None, n0=len(self.srv.notes), t0=self.clock.ms)
             return ev
         self.srv.active = False
@@ -328,6 +336,9 @@ class Script:
 
     def sent(self, data):
         self.cur["reply"] = data
+        if self.send_fails:                   # the datagram / segment is handed over, then the transport reports a failure
+            self.send_fails = False
+            raise OSError(errno.ECONNREFUSED, "Connection refused")
 
 
 def ms_of(t):
@@ -655,6 +666,8 @@ def op_line(mode, pruning_ms, fd_limit, events, recs=None):
     toks = ["reg", mode, str(pr), str(fd_limit)]
     k = 0
     for ev in events:
+        if ev[0] == "x":
+            continue
         if ev[0] == "t":
             toks += ["t", str(ev[1])]
             continue
@@ -729,7 +742,7 @@ def garbage(r):
     return g() if callable(g) else g
 
 
-def gen_history(r, mode):
+def gen_history(r, mode, monotone=False):
     """a history of well-formed commands with known meaning, clock moves, and now and then a malformed datagram or a
     silent TCP client; returns (pruning_ms, fd_limit, events, meaning) where meaning[i] describes events[i]"""
     pruning = r.choice(PRUNINGS)
@@ -769,8 +782,14 @@ def gen_history(r, mode):
         elif k < 15:
             name = case_variant(r, r.choice(aliases))
             emit(host, cmd_query(name), dict(kind="query", host=host, name=name))
+        elif k == 17 and r.chance(1, 2):
+            what = r.choice(["timeout", "reset", "send-fails"] if mode != "base" else ["timeout", "reset"])
+            events.append(("x", what))
+            meaning.append(dict(kind="hiccup"))
         elif k < 18:
             now += r.choice([0, 1, 999, 1000, 2000, pr - 1, pr, pr + 1, pr // 2, 2 * pr + 5, 1, 1000, -1, -1000, -pr, -3 * abs(pr) - 7])
+            if monotone and events and now < max([e[1] for e in events if e[0] == "t"] or [now]):
+                now = max(e[1] for e in events if e[0] == "t")
             events.append(("t", now))
             meaning.append(dict(kind="clock", now=now))
         elif k == 18 and mode == "tcp":
@@ -1041,7 +1060,7 @@ def correspondence(ctx):
         return c
     for (tag, mode, pruning, fd_limit, events, recs, want, kw), got_line in zip(impl, outs):
         got = canon_model(got_line)
-        evs = [e for e in events if e[0] != "t"]
+        evs = [e for e in events if e[0] not in ("t", "x")]
         if got == "not-modelled":
             c.count("skipped:not-modelled(NaN port / slice over frozenset)")
             # the stream up to the offending datagram is still compared: every prefix in one driver call
@@ -1092,6 +1111,7 @@ def correspondence(ctx):
                                         impl=want[-600:], model=got[-600:], source=tag))
         elif len(c.samples) < 12 and (len(lines) < 12 or c.evaluations % 1013 < 25):
             c.samples.append(dict(mode=mode, events=enc_events(events)[:6], outcome=want[:300]))
+    statement_oracle_sample(ctx, c, r)
     try:
         real_socket_correspondence(ctx, c, r)
     except DriverError as ex:
@@ -1120,12 +1140,41 @@ def correspondence(ctx):
     return c
 
 
+def statement_oracle_sample(ctx, c, r):
+    """the statement oracle (real code only, no model) on every run: the boundary histories, the deep-value family and a
+    seeded sample of histories with an advancing clock.  A failure is filed with the disagreements, so that the search
+    that follows starts from it."""
+    n = 0
+    t0 = _walltime.time()
+    fam = [(h[0], h[1], h[2], h[3], None, {}) for h in boundary_histories()]
+    fam += [(x[1], x[2], x[3], x[4], None, dict(reclimit=x[7], pad=x[8])) for x in deep_cases(ctx)[::3]]
+    for i in range(ctx.budget(600, 6000)):
+        mode = ("base", "udp", "tcp")[i % 3]
+        pruning, fd_limit, events, meaning = gen_history(r, mode, monotone=True)
+        fam.append((mode, pruning, fd_limit, events, meaning, {}))
+    known = getattr(ctx, "known_signatures", set())
+    for mode, pruning, fd_limit, events, meaning, kw in fam:
+        res = oracle_history(mode, pruning, fd_limit, events, meaning or meaning_of(events), **kw)
+        n += 1
+        if res and res[1] not in known:
+            c.count("STATEMENT-ORACLE-FAILED:" + res[1])
+            c.disagreements.append(dict(case=dict(kind="history", mode=mode, pruning_ms=pruning, fd_limit=fd_limit,
+                                                  reclimit=kw.get("reclimit"), pad=kw.get("pad", 0), events=enc_events(events)),
+                                        impl=res[0][:600], model="(the statement)", source="statement-oracle"))
+    c.count("statement-oracle:histories-checked", n)
+    c.extra["statement_oracle"] = dict(histories=n, seconds=round(_walltime.time() - t0, 1),
+                                       what="reference map from the statement on the real code only; query answers exact up to "
+                                            "order among equal refresh times; notifications against announced membership, "
+                                            "independent of when stale entries are dropped; malformed classes change nothing; "
+                                            "foreign live registrations untouched; loop alive; TCP delay <= TIMEOUT")
+
+
 def cut_events(events, k):
     """the history up to and including its k-th (0-based) non-clock event"""
     out, n = [], 0
     for e in events:
         out.append(e)
-        if e[0] != "t":
+        if e[0] not in ("t", "x"):
             if n == k:
                 break
             n += 1
@@ -1133,7 +1182,7 @@ def cut_events(events, k):
 
 
 def first_difference(mode, pruning, fd_limit, events, **kw):
-    n = len([e for e in events if e[0] != "t"])
+    n = len([e for e in events if e[0] not in ("t", "x")])
     for k in range(n):
         cut = cut_events(events, k)
         try:
@@ -1149,8 +1198,8 @@ def first_difference(mode, pruning, fd_limit, events, **kw):
 def enc_events(events):
     out = []
     for e in events:
-        if e[0] == "t":
-            out.append(["t", e[1]])
+        if e[0] in ("t", "x"):
+            out.append([e[0], e[1]])
         elif e[0] == "d":
             out.append(["d", e[1], e[2].hex()])
         elif e[0] == "c":
@@ -1163,8 +1212,8 @@ def enc_events(events):
 def dec_events(events):
     out = []
     for e in events:
-        if e[0] == "t":
-            out.append(("t", e[1]))
+        if e[0] in ("t", "x"):
+            out.append((e[0], e[1]))
         elif e[0] == "d":
             out.append(("d", e[1], bytes.fromhex(e[2])))
         elif e[0] == "c":
@@ -1176,41 +1225,44 @@ def dec_events(events):
 
 # ------------------------------------------------------------------------------------------ direct oracle (statement, real code only)
 class Reference:
-    """the statement's registry: (NAME, host, port) -> [last refresh, order of joining]; written from the statement"""
+    """The statement's registry, independent of WHEN an implementation drops stale entries:
+    R: (NAME, host, port) -> last refresh, for what was registered and not unregistered since;
+    P: the pairs whose last notification was `added` (what a listener believes to be there)."""
     def __init__(self, pruning_ms):
-        self.m = {}
-        self.seq = 0
-        self.pruning = pruning_ms
+        self.R, self.P, self.pruning = {}, set(), pruning_ms
 
-    def register(self, host, names, port, now):
-        added = []
-        for n in names:
-            key = (n.upper(), host, port)
-            if key in self.m:
-                self.m[key][0] = now
-            else:
-                self.seq += 1
-                self.m[key] = [now, self.seq]
-                added.append((1,) + key)
-        return added
+    def stale(self, key, now):
+        return key not in self.R or self.R[key] < now - self.pruning
 
-    def unregister(self, host, port):
-        gone = [k for k in self.m if k[1] == host and k[2] == port]
-        for k in gone:
-            del self.m[k]
-        return [(0,) + k for k in gone]
-
-    def query(self, name, now):
-        """(live entries as (refresh time, address) oldest refresh first, removals of the stale ones)"""
+    def live(self, name, now):
+        """(refresh time, address) of the servers a query for `name` must list, oldest refresh first"""
         name = name.upper()
-        mine = sorted((v[0], v[1], k) for k, v in self.m.items() if k[0] == name)
-        stale = [k for t, _s, k in mine if t < now - self.pruning]
-        for k in stale:
-            del self.m[k]
-        return [(t, (k[1], k[2])) for t, _s, k in mine if t >= now - self.pruning], [(0,) + k for k in stale]
+        return sorted(((t, (k[1], k[2])) for k, t in self.R.items() if k[0] == name and t >= now - self.pruning),
+                      key=lambda x: x[0])
 
-    def table(self):
-        return dict((k, v[0]) for k, v in self.m.items())
+    def notes(self, notes, now, may_add=(), may_remove_addr=None):
+        """apply the notifications of one event; returns a complaint or None.  `added` only for a pair the event
+        registers and that is not believed present; `removed` only for a pair believed present that the event
+        unregisters or that is stale at this moment (an implementation may drop stale entries whenever it likes)"""
+        seen = set()
+        for kind, name, host, port in notes:
+            key = (name, host, port)
+            if (kind, key) in seen:
+                return "%s fired twice for %r" % ("added" if kind else "removed", key)
+            seen.add((kind, key))
+            if kind == 1:
+                if key not in may_add:
+                    return "added fired for %r, which this event does not register" % (key,)
+                if key in self.P:
+                    return "added fired for %r, which was already announced and not removed since" % (key,)
+                self.P.add(key)
+            else:
+                if key not in self.P:
+                    return "removed fired for %r, which is not announced as present" % (key,)
+                if not ((may_remove_addr is not None and (host, port) == may_remove_addr) or self.stale(key, now)):
+                    return "removed fired for %r, which is neither unregistered by this event nor stale" % (key,)
+                self.P.discard(key)
+        return None
 
 
 def flat_table(services):
@@ -1227,9 +1279,14 @@ def oracle_history(mode, pruning, fd_limit, events, meaning, reclimit=None, pad=
     now = 0
     k = 0
     snap = repr(())
+    prev_services = ()
     tcp_timeout = int(round(r.TCPRegistryServer.TIMEOUT * 1000))
     for e, m in zip(events, meaning):
+        if e[0] == "x":
+            continue
         if e[0] == "t":
+            if e[1] < now:
+                return None          # the statement's clock only advances; what follows is for the correspondence alone
             now = e[1]
             continue
         if k >= len(recs):
@@ -1252,29 +1309,40 @@ def oracle_history(mode, pruning, fd_limit, events, meaning, reclimit=None, pad=
                             "sockets of earlier unanswered requests are still open" % (k - 1, m["kind"], m["host"], rec["open"]),
                             "tcp-unreplied-sockets-exhaust-descriptors")
                 continue
-        before = ref.table()
         prev_snap, snap_now = snap, repr(rec["services"])
         snap = snap_now
-        if rec["reply"] is None and (snap_now != prev_snap or rec["notes"]):
-            return ("event %d (%s): a datagram that was refused (no answer) changed the table: %s -> %s, notifications %r"
-                    % (k - 1, m["kind"], prev_snap[-200:], snap_now[-200:], rec["notes"]), "refused-datagram-altered")
         reply = None
         if rec["reply"] is not None:
             try:
                 reply = brine().load(rec["reply"])
             except Exception:  # noqa
                 return "event %d: the reply is not decodable" % (k - 1), "reply-undecodable"
-        got_notes = sorted(map(repr, rec["notes"]))
         if m["kind"] == "register":
-            want = ref.register(m["host"], m["names"], m["port"], now)
-            if reply != "OK":
-                return "event %d: register answered %r" % (k - 1, reply), "register-reply"
+            keys = [(n.upper(), m["host"], m["port"]) for n in m["names"]]
+            bad = ref.notes(rec["notes"], now, may_add=set(keys))
+            if bad:
+                return "event %d (register): %s" % (k - 1, bad), "notifications:register"
+            for key in keys:
+                ref.R[key] = now
+                if key not in ref.P:
+                    return ("event %d (register): %r became registered and no `added` was fired (notifications %r)"
+                            % (k - 1, key, rec["notes"]), "notifications:register")
         elif m["kind"] == "unregister":
-            want = ref.unregister(m["host"], m["port"])
-            if reply != "OK":
-                return "event %d: unregister answered %r" % (k - 1, reply), "unregister-reply"
+            addr = (m["host"], m["port"])
+            bad = ref.notes(rec["notes"], now, may_remove_addr=addr)
+            if bad:
+                return "event %d (unregister): %s" % (k - 1, bad), "notifications:unregister"
+            for key in [x for x in ref.R if (x[1], x[2]) == addr]:
+                del ref.R[key]
+            left = [x for x in ref.P if (x[1], x[2]) == addr]
+            if left:
+                return ("event %d (unregister): %r was unregistered and no `removed` was fired (notifications %r)"
+                        % (k - 1, left, rec["notes"]), "notifications:unregister")
         elif m["kind"] == "query":
-            ans, want = ref.query(m["name"], now)
+            bad = ref.notes(rec["notes"], now)
+            if bad:
+                return "event %d (query): %s" % (k - 1, bad), "notifications:query"
+            ans = ref.live(m["name"], now)
             times = dict((a, t) for t, a in ans)
             # exactly the live servers, oldest refresh first; the statement leaves the order among equal refresh times open
             ok = (type(reply) is tuple and len(reply) == len(ans) and all(type(a) is tuple and a in times for a in reply)
@@ -1284,12 +1352,15 @@ def oracle_history(mode, pruning, fd_limit, events, meaning, reclimit=None, pad=
                 return ("event %d: query %r at %d ms answered %r, the registrations (refresh time, server) say %r"
                         % (k - 1, m["name"], now, reply, ans), "query-answer")
         else:
-            after = flat_table(rec["services"])
+            before, after = flat_table(prev_services), flat_table(rec["services"])
             strict = ("a connection that sends nothing" if e[0] == "s"
                       else strictly_malformed(mode, e[2] if e[0] == "d" else e[3]))
+            if rec["reply"] is None and (snap_now != prev_snap or rec["notes"]):
+                return ("event %d (%s): a datagram that was refused (no answer) changed the table: %s -> %s, notifications %r"
+                        % (k - 1, m["kind"], prev_snap[-200:], snap_now[-200:], rec["notes"]), "refused-datagram-altered")
             if strict:
                 # the statement's own classes of malformed datagram: nothing at all may change
-                if rec["notes"] or after != before or (prev_snap is not None and repr(rec["services"]) != prev_snap):
+                if rec["notes"] or snap_now != prev_snap:
                     return ("event %d: a datagram with %s from %s changed the registrations: %r -> %r, notifications %r"
                             % (k - 1, strict, m.get("host"), before, after, rec["notes"]), "malformed-datagram-altered:" + strict)
             # anything else may touch only what it names: entries of its own host, and stale entries (which no
@@ -1301,17 +1372,14 @@ def oracle_history(mode, pruning, fd_limit, events, meaning, reclimit=None, pad=
             for key in after:
                 if key[1] != m.get("host") and key not in before:
                     return "event %d: a datagram from %s created %r" % (k - 1, m.get("host"), key), "foreign-registration-created"
-            # resynchronise the reference with whatever it legitimately did
-            ref.m = dict((key, [t, ref.m[key][1] if key in ref.m else ref.seq + i + 1]) for i, (key, t) in enumerate(after.items()))
-            ref.seq += len(after)
-            # notifications must still match the membership changes it made
-            want = [(1,) + key for key in after if key not in before] + [(0,) + key for key in before if key not in after]
-        if got_notes != sorted(map(repr, want)):
-            return ("event %d (%s): notifications %r, membership changes %r" % (k - 1, m["kind"], rec["notes"], want),
-                    "notifications:" + m["kind"])
-        if m["kind"] != "other" and flat_table(rec["services"]) != ref.table():
-            return ("event %d (%s): the table is %r, the registrations say %r" % (k - 1, m["kind"], flat_table(rec["services"]),
-                                                                             ref.table()), "table:" + m["kind"])
+            # follow whatever it legitimately did to its own host's entries
+            for key in before:
+                if key not in after:
+                    ref.R.pop(key, None)
+            ref.R.update(after)
+            for kind, name, host, port in rec["notes"]:
+                (ref.P.add if kind == 1 else ref.P.discard)((name, host, port))
+        prev_services = rec["services"]
     return None
 
 
@@ -1361,6 +1429,9 @@ def meaning_of(events):
     b = brine()
     out = []
     for e in events:
+        if e[0] == "x":
+            out.append(dict(kind="hiccup"))
+            continue
         if e[0] == "t":
             out.append(dict(kind="clock", now=e[1]))
             continue
